@@ -10,7 +10,7 @@ From Coq Require Import List NArith ZArith Bool Arith Lia Ring Reals RealField L
 From Coquelicot Require Import Coquelicot.
 From PV Require Import Graph.OpFamily Tensor.Kernels Tensor.Index Tensor.KernelProofs Tensor.ProofsGather
   Tensor.ProofsPerm Tensor.ProofsBilinear Scalar.ScalarBase Gen.ScalarGen Scalar.Deriv Scalar.Pown
-  Tensor.AdjCore Tensor.AdjMatmul Tensor.AdjScalar Tensor.GraphInst Tensor.GraphInstR.
+  Tensor.AdjCore Tensor.AdjMatmul Tensor.AdjScalar Tensor.GraphInst Tensor.AdjMax Tensor.GraphInstR.
 Import ListNotations.
 Local Open Scope R_scope.
 
@@ -299,6 +299,88 @@ Proof.
   intros xs dxs Hx _ _ r. cbn [leaf_desc d_fw d_jvp]. apply cderiv_single. apply cderiv_const. intro i. apply nth_zeros.
 Qed.
 
+(* ------------------------------------------------------------------ max / min along an axis *)
+Definition ext_dom (better : R -> R -> bool) (sx sy : tshape) (dim : nat) (xs : list (list R)) : Prop :=
+  forall e, In e (axis_red sx sy dim) -> exists s, In s (snd e) /\
+    forall s', In s' (snd e) -> s' <> s -> better (nth s (nth 0 xs []) 0) (nth s' (nth 0 xs []) 0) = true.
+Definition open_better (better : R -> R -> bool) : Prop :=
+  forall (u v : R -> R), continuous u 0 -> continuous v 0 -> better (u 0) (v 0) = true ->
+    locally 0 (fun t => better (u t) (v t) = true).
+
+Lemma locally_forall_list {A} (l : list A) (P : A -> R -> Prop) :
+  (forall a, In a l -> locally 0 (P a)) -> locally 0 (fun t => forall a, In a l -> P a t).
+Proof.
+  induction l as [|a l IH]; intro H.
+  - apply filter_forall. intros t a [].
+  - assert (H1 : locally 0 (P a)) by (apply H; left; reflexivity).
+    assert (H2 : locally 0 (fun t => forall a0, In a0 l -> P a0 t)) by (apply IH; intros a0 Ha0; apply H; right; exact Ha0).
+    apply (filter_imp (fun t => P a t /\ forall a0, In a0 l -> P a0 t)); [|apply filter_and; assumption].
+    intros t [Ha Hl] a0 [<-|Hin]; [exact Ha|apply Hl; exact Hin].
+Qed.
+Lemma find_first_unique (f : nat -> bool) (l : list nat) (s : nat) :
+  In s l -> f s = true -> (forall s', In s' l -> s' <> s -> f s' = false) -> find f l = Some s.
+Proof.
+  induction l as [|a l IH]; intros Hin Hs Ho; [destruct Hin|]. cbn [find].
+  destruct (f a) eqn:Ea.
+  - destruct Hin as [->|Hin]; [reflexivity|]. f_equal.
+    destruct (Nat.eq_dec a s) as [E|N]; [exact E|]. rewrite (Ho a (or_introl eq_refl) N) in Ea. discriminate.
+  - destruct Hin as [->|Hin]; [congruence|]. apply IH; [exact Hin|exact Hs|]. intros s' Hs' N. apply Ho; [right; exact Hs'|exact N].
+Qed.
+
+Lemma ext_deriv better sx sy dim :
+  (forall a b, better a b = true -> better b a = false) -> (forall a, better a a = false) -> open_better better ->
+  desc_deriv (ext_desc better sx sy dim) (ext_dom better sx sy dim).
+Proof.
+  intros Hasym Hirr Hopen xs dxs Hx _ Hdom r. cbn [ext_desc d_fw d_jvp]. apply cderiv_single. rewrite !hd_nth0. intro i.
+  set (p := axis_red sx sy dim) in *. destruct (lt_dec i (length p)) as [Hi|Hi].
+  - set (e := nth i p (0%nat, [])). assert (He : In e p) by (apply nth_In; exact Hi).
+    destruct (Hdom e He) as (s & Hs & Hbest). set (g := snd e) in *.
+    set (x := fun t => nth 0 (xs t) []).
+    assert (Hcont : forall s0, continuous (fun t => nth s0 (x t) 0) 0).
+    { intro s0. apply (ex_derive_continuous (fun t => nth s0 (x t) 0) 0). exists (nth s0 (nth 0 dxs []) 0). apply (Hx 0%nat s0). }
+    assert (Hloc : locally 0 (fun t => forall s', In s' g -> s' <> s -> better (nth s (x t) 0) (nth s' (x t) 0) = true)).
+    { apply (locally_forall_list g (fun s' t => s' <> s -> better (nth s (x t) 0) (nth s' (x t) 0) = true)).
+      intros s' Hs'. destruct (Nat.eq_dec s' s) as [E|N].
+      - apply filter_forall. intros t Hn. contradiction.
+      - apply (filter_imp (fun t => better (nth s (x t) 0) (nth s' (x t) 0) = true)); [intros t Ht _; exact Ht|].
+        apply (Hopen (fun t => nth s (x t) 0) (fun t => nth s' (x t) 0) (Hcont s) (Hcont s')). apply Hbest; assumption. }
+    assert (Hscan : forall t, (forall s', In s' g -> s' <> s -> better (nth s (x t) 0) (nth s' (x t) 0) = true) ->
+                       scan better (gvals (x t) g) = nth s (x t) 0).
+    { intros t Ht. apply (scan_unique better Hasym Hirr).
+      - unfold gvals. apply (in_map (fun s0 => nth s0 (x t) 0)). exact Hs.
+      - intros v Hv. unfold gvals in Hv. apply in_map_iff in Hv. destruct Hv as (s' & <- & Hs').
+        destruct (Nat.eq_dec s' s) as [->|N]; [left; reflexivity|right; apply Ht; assumption]. }
+    rewrite (nth_map_lt _ p i 0 (0%nat, []) Hi). fold e g.
+    assert (H0 : forall s', In s' g -> s' <> s -> better (nth s (x 0) 0) (nth s' (x 0) 0) = true) by (apply (locally_singleton _ _ Hloc)).
+    change (nth 0 (xs 0) []) with (x 0). rewrite (Hscan 0 H0).
+    assert (Ef : first_eq g (x 0) (nth s (x 0) 0) = Some s).
+    { unfold first_eq. apply find_first_unique; [exact Hs|apply req_true; reflexivity|].
+      intros s' Hs' N. destruct (req (nth s' (x 0) 0) (nth s (x 0) 0)) eqn:Er; [|reflexivity].
+      apply req_true in Er. pose proof (H0 s' Hs' N) as Hb. rewrite Er, Hirr in Hb. discriminate. }
+    rewrite Ef.
+    apply (is_derive_ext_loc (fun t => nth s (x t) 0)); [|apply (Hx 0%nat s)].
+    refine (filter_imp _ _ _ Hloc). intros t Ht.
+    rewrite (nth_map_lt _ p i 0 (0%nat, []) Hi). fold e g. rewrite hd_nth0. symmetry. apply (Hscan t Ht).
+  - rewrite nth_overflow by (rewrite map_length; lia). apply (is_derive_ext (fun _ => 0)); [|apply (is_derive_const 0 0)].
+    intro t. rewrite nth_overflow by (rewrite map_length; lia). reflexivity.
+Qed.
+Lemma open_rgt : open_better rgt.
+Proof.
+  intros u v Hu Hv H. apply rgt_true in H.
+  assert (Hw : continuous (fun t => minus (u t) (v t)) 0) by (apply (continuous_minus u v 0 Hu Hv)).
+  pose proof (Hw (fun y => 0 < y)) as Hl. cbv beta in Hl.
+  apply (filter_imp (fun t => 0 < minus (u t) (v t))); [intros t Ht; apply rgt_true; unfold minus, plus, opp in Ht; cbn in Ht; lra|].
+  apply Hl. apply (locally_open (fun y => 0 < y)); [apply open_gt|auto|]. unfold minus, plus, opp. cbn. lra.
+Qed.
+Lemma open_rlt : open_better rlt.
+Proof.
+  intros u v Hu Hv H. apply rlt_true in H.
+  assert (Hw : continuous (fun t => minus (v t) (u t)) 0) by (apply (continuous_minus v u 0 Hv Hu)).
+  pose proof (Hw (fun y => 0 < y)) as Hl. cbv beta in Hl.
+  apply (filter_imp (fun t => 0 < minus (v t) (u t))); [intros t Ht; apply rlt_true; unfold minus, plus, opp in Ht; cbn in Ht; lra|].
+  apply Hl. apply (locally_open (fun y => 0 < y)); [apply open_gt|auto|]. unfold minus, plus, opp. cbn. lra.
+Qed.
+
 (* ------------------------------------------------------------------ the operators of real_family *)
 Definition un_dom (u : unop) (x : R) : Prop :=
   match u with ULog | USqrt => 0 < x | UTan => cos x <> 0 | UAbs => x <> 0 | _ => True end.
@@ -318,6 +400,8 @@ Definition real_dom (o : rop) (xs : list (list R)) : Prop :=
   | RReLU s | RLReLU s => all_el s (fun x => x <> 0) xs
   | RPowN s k => int32 k /\ all_el s (fun x => x <> 0) xs
   | RBin b sa sb => ew_dom sa sb (b_dom b) xs
+  | RMax sx sy dim => ext_dom rgt sx sy dim xs      (* each maximum attained exactly once *)
+  | RMin sx sy dim => ext_dom rlt sx sy dim xs
   end.
 
 Lemma un_slope u x : un_dom u x -> is_derive (un_fw u) x (un_bw u x (un_fw u x) 1).
@@ -381,7 +465,7 @@ Qed.
 (* the tangent of every operator of real_family is the derivative of its forward value, on its smooth domain *)
 Theorem jvp_is_derivative (o : rop) : desc_deriv (describeR o) (real_dom o).
 Proof.
-  destruct o as [c|u s|c s k|s|s|s k|b sa sb]; cbn [describeR real_dom].
+  destruct o as [c|u s|c s k|s|s|s k|b sa sb|sx sy dim|sx sy dim]; cbn [describeR real_dom].
   - apply core_deriv.
   - apply (uny_deriv s (un_fw u) (un_bw u) (un_dom u)). apply un_slope.
   - apply (uny_deriv s (fun x => k_fw c x k) (fun x y g => k_bw c x y g k) (k_dom c k)). apply k_slope.
@@ -392,6 +476,8 @@ Proof.
   - destruct b.
     + apply (ewy_deriv sa sb fw_divide (b_jvp BDivide) _ _ _ chain2_div).
     + apply (ewy_deriv sa sb fw_pow (b_jvp BPow) _ _ _ chain2_pow).
+  - apply (ext_deriv rgt sx sy dim rgt_asym rgt_irrefl open_rgt).
+  - apply (ext_deriv rlt sx sy dim rlt_asym rlt_irrefl open_rlt).
 Qed.
 
 (* readable instances: one operand curve x with derivative dx at 0 (e.g. the line x0 + t dx) *)
